@@ -6,7 +6,7 @@
 (* zones (slot 1 / slot 2); every Zoned result is reported as              *)
 (*   [st, sec, ns, off, civil]                                             *)
 (* and is checked for well-formedness wherever it appears.                 *)
-EXTENDS Zoned, CivilOps, TLC, Json, IOUtils
+EXTENDS Zoned, CivilOps, Rfc3339, TLC, Json, IOUtils
 
 Rec == ndJsonDeserialize(IOEnv.TRACE)
 VARIABLES l, z1, z2
@@ -161,8 +161,34 @@ ZStepWhy(r) ==
       ELSE IF a = b /\ r.heq # 1 THEN "equal Zoned values hash differently"
       ELSE ""
 
+\* ---- C09: RFC 9557 text of a zoned datetime ----------------------------------------------
+DigitsFewest(ns, k) == (ns = 0 /\ k = 0) \/ (ns # 0 /\ k \in 1..9 /\ ns % Pow10(9 - k) = 0 /\ (k = 1 \/ ns % Pow10(10 - k) # 0))
+AbsI2(i) == IF i < 0 THEN 0 - i ELSE i
+ZTextWhy(r) ==
+  LET z == ZoneOf(r.zi)  t == InstOfZ(r.z)
+      c == CivilAt(z, t)  o == OffAt(z, t)
+      p == RdInstant(r.text, TRUE)
+  IN IF ~p.ok THEN "printed zoned datetime is not valid RFC 9557"
+     ELSE IF ~DigitsFewest(c[3], p.digits) THEN "fraction digits"
+     ELSE IF p.fields # FieldsOf(c) THEN "printed civil fields"
+     ELSE IF p.zulu \/ p.offsecs THEN "offset not printed as +-hh:mm"
+     ELSE IF AbsI2(p.off - o) > 30 THEN "printed offset is not the offset rounded to the minute"
+     ELSE IF p.name # r.name THEN "annotation is not the time zone"
+     \* an independent RFC 9557 reader: the civil time in the annotated zone,
+     \* the printed offset selecting among the instants that show it
+     \* two instants show this civil time with offsets that round to the same minute (a fold of
+     \* a few seconds, e.g. Anchorage 1900-08-20 -09:59:36 -> -10:00): no RFC 9557 text can tell them apart
+     ELSE IF Cardinality({x \in Pre(z, c) : AbsI2(x - p.off) <= 30}) >= 2 THEN ""
+     ELSE IF {x \in Pre(z, c) : AbsI2(x - p.off) <= 30} # {o} THEN "the text does not determine the instant"
+     ELSE IF r.re.st # "ok" THEN "jiff refuses its own output"
+     ELSE IF InstOfZ(r.re) # t THEN "re-parse yields a different instant"
+     ELSE IF r.re.off # o \/ r.re.civil # FieldsOf(c) THEN "re-parse yields different fields"
+     ELSE IF r.rename # 1 THEN "re-parse yields a different time zone"
+     ELSE ""
+
 Why(r) ==
   CASE r.op = "zone"    -> ""
+    [] r.op = "z_text"  -> ZTextWhy(r)
     [] r.op = "z_add"   -> ZAddWhy(r)
     [] r.op = "z_dur"   -> ZDurWhy(r)
     [] r.op = "z_day"   -> ZDayWhy(r)
